@@ -4,6 +4,7 @@
 -/
 import OllamaVerif.Model.Stream
 import OllamaVerif.Generated.C17_Reasons
+import OllamaVerif.Generated.C17_Client
 namespace OllamaVerif.Tie.C17
 open OllamaVerif OllamaVerif.Stream OllamaVerif.Generated.C17
 
@@ -12,5 +13,9 @@ theorem reason_table_complete : reasonTable.map (·.1) = List.range 8 := by deci
 
 /-- the model's `reasonStr` is the real `DoneReason.String()` on every tabulated value -/
 theorem reason_table_matches : ∀ p ∈ reasonTable, reasonStr p.1 = p.2 := by decide
+
+/-- api.Client's scanner buffer is the documented 512 * format.KiloByte: a reply line shorter than
+    that is delivered (`client_view_fits`), one of that length or more is F17e (`client_long_line`) -/
+theorem client_limit_documented : clientMaxLine = 512000 := by decide
 
 end OllamaVerif.Tie.C17
